@@ -471,30 +471,40 @@ func checkReplacementTable(c *Ctx, r *Report, fn *ssa.Function, mu *ssa.MapUpdat
 		return
 	}
 	insertsDir := insertedEntryMayBeDir(fn, mu)
-	for _, typ := range preparedTypes {
-		ev := newEvaluator(c)
-		ev.Bind = map[ssa.Value]AV{}
-		occ := newAObj("occupant")
-		occ.Fields["Type"] = cStr(typ)
-		for _, lk := range lks {
-			for _, ref := range *lk.Referrers() {
-				if ex, ok := ref.(*ssa.Extract); ok {
-					if ex.Index == 0 {
-						ev.Bind[ex] = avObj{occ}
-					} else {
-						ev.Bind[ex] = cBool(true)
+	insSp := joinSorted(keySpellings(c, mu.Key, fn, 0))
+	for li, hit := range lks {
+		// this lookup finds an occupant, the others do not
+		own := sameValue(hit.Index, mu.Key) || joinSorted(keySpellings(c, hit.Index, fn, 0)) == insSp
+		for _, typ := range preparedTypes {
+			ev := newEvaluator(c)
+			ev.Bind = map[ssa.Value]AV{}
+			occ := newAObj("occupant")
+			occ.Fields["Type"] = cStr(typ)
+			for _, lk := range lks {
+				for _, ref := range *lk.Referrers() {
+					if ex, ok := ref.(*ssa.Extract); ok {
+						switch {
+						case ex.Index == 0 && lk == hit:
+							ev.Bind[ex] = avObj{occ}
+						case ex.Index == 1:
+							ev.Bind[ex] = cBool(lk == hit)
+						}
 					}
 				}
 			}
-		}
-		fr := ev.Explore(fn, make([]AV, len(fn.Params)))
-		live := fr != nil && fr.Live(mu.Block())
-		allowed := typ == typeImplicitDir && insertsDir
-		cons := fmt.Sprintf("%s [occupied by %q]", construct, typ)
-		if live && !allowed {
-			r.Fail("K2b", cons, c.instrPos(mu), fmt.Sprintf("with the destination already occupied by an entry of type %q the insert is still reachable: the occupant would be silently replaced (only an implied directory may be replaced, and only by a directory)", typ))
-		} else {
-			r.Pass("K2b", cons, c.instrPos(mu), fmt.Sprintf("insert reachable=%v", live))
+			fr := ev.Explore(fn, make([]AV, len(fn.Params)))
+			live := fr != nil && fr.Live(mu.Block())
+			allowed := typ == typeImplicitDir && insertsDir && own
+			kind := "same spelling"
+			if !own {
+				kind = "other spelling"
+			}
+			cons := fmt.Sprintf("%s [lookup#%d (%s) finds %q]", construct, li+1, kind, typ)
+			if live && !allowed {
+				r.Fail("K2b", cons, c.instrPos(mu), fmt.Sprintf("with the destination already occupied by an entry of type %q the insert is still reachable: the occupant would be silently replaced or doubled (only an implied directory may be replaced, and only by a directory stored under the same key)", typ))
+			} else {
+				r.Pass("K2b", cons, c.instrPos(mu), fmt.Sprintf("insert reachable=%v", live))
+			}
 		}
 	}
 }
@@ -690,60 +700,7 @@ func checkKeyForms(c *Ctx, r *Report, reach map[*ssa.Function]bool) {
 		ord int
 	}
 	_ = pa
-	// the spelling of a key is decided by the outermost normaliser applied to
-	// it; a helper that returns results of several normalisers yields all of
-	// their spellings
-	var formOfValue func(v ssa.Value, fn *ssa.Function, depth int) map[string]bool
-	formOfValue = func(v ssa.Value, fn *ssa.Function, depth int) map[string]bool {
-		out := map[string]bool{}
-		if depth > 6 || v == nil {
-			return out
-		}
-		switch x := v.(type) {
-		case *ssa.Call:
-			sc := x.Call.StaticCallee()
-			if sc == nil || c.funcPkgPath(sc) != filesPath {
-				return out
-			}
-			if strings.HasPrefix(sc.Name(), "Normalize") && sc.Object() != nil && sc.Object().Exported() {
-				out[sc.Name()] = true
-				return out
-			}
-			// helper: union of the forms of its returned values
-			for _, b := range sc.Blocks {
-				if ret, ok := b.Instrs[len(b.Instrs)-1].(*ssa.Return); ok {
-					for _, res := range retResults(ret) {
-						for f := range formOfValue(res, sc, depth+1) {
-							out[f] = true
-						}
-					}
-				}
-			}
-		case *ssa.Phi:
-			for _, e := range x.Edges {
-				for f := range formOfValue(e, fn, depth+1) {
-					out[f] = true
-				}
-			}
-		case *ssa.UnOp:
-			// load of <entry>.Destination: what this function stored there
-			if fa, ok := x.X.(*ssa.FieldAddr); ok && fieldName(fa.X.Type(), fa.Field) == "Destination" {
-				forEachInstr(fn, func(in ssa.Instruction) {
-					st, ok := in.(*ssa.Store)
-					if !ok {
-						return
-					}
-					if fa2, ok := st.Addr.(*ssa.FieldAddr); ok && fieldName(fa2.X.Type(), fa2.Field) == "Destination" && sameValue(fa2.X, fa.X) {
-						for f := range formOfValue(st.Val, fn, depth+1) {
-							out[f] = true
-						}
-					}
-				})
-			}
-		}
-		return out
-	}
-	formOf := func(v ssa.Value, fn *ssa.Function) map[string]bool { return formOfValue(v, fn, 0) }
+	formOf := func(v ssa.Value, fn *ssa.Function) map[string]bool { return keySpellings(c, v, fn, 0) }
 	var sites []site
 	forms := map[string]bool{}
 	for _, fn := range sortedFuncs(c, reach) {
@@ -811,4 +768,55 @@ func checkKeyForms(c *Ctx, r *Report, reach map[*ssa.Function]bool) {
 		r.Check(len(missing) == 0, "K3", construct, c.instrPos(s.mu),
 			fmt.Sprintf("entries are keyed under %d spellings (%s) but the collision lookups before this insert cover only {%s}: an occupant of the other kind at the same destination (a file where a directory is added, or a parent directory that is a file) is not detected", len(forms), joinSorted(forms), joinSorted(covered)))
 	}
+}
+
+// keySpellings: the spelling of a map key is decided by the outermost
+// normaliser applied to it; a helper that returns results of several
+// normalisers yields all of their spellings.
+func keySpellings(c *Ctx, v ssa.Value, fn *ssa.Function, depth int) map[string]bool {
+	out := map[string]bool{}
+	if depth > 6 || v == nil {
+		return out
+	}
+	switch x := v.(type) {
+	case *ssa.Call:
+		sc := x.Call.StaticCallee()
+		if sc == nil || c.funcPkgPath(sc) != filesPath {
+			return out
+		}
+		if strings.HasPrefix(sc.Name(), "Normalize") && sc.Object() != nil && sc.Object().Exported() {
+			out[sc.Name()] = true
+			return out
+		}
+		for _, b := range sc.Blocks {
+			if ret, ok := b.Instrs[len(b.Instrs)-1].(*ssa.Return); ok {
+				for _, res := range retResults(ret) {
+					for f := range keySpellings(c, res, sc, depth+1) {
+						out[f] = true
+					}
+				}
+			}
+		}
+	case *ssa.Phi:
+		for _, e := range x.Edges {
+			for f := range keySpellings(c, e, fn, depth+1) {
+				out[f] = true
+			}
+		}
+	case *ssa.UnOp:
+		if fa, ok := x.X.(*ssa.FieldAddr); ok && fieldName(fa.X.Type(), fa.Field) == "Destination" {
+			forEachInstr(fn, func(in ssa.Instruction) {
+				st, ok := in.(*ssa.Store)
+				if !ok {
+					return
+				}
+				if fa2, ok := st.Addr.(*ssa.FieldAddr); ok && fieldName(fa2.X.Type(), fa2.Field) == "Destination" && sameValue(fa2.X, fa.X) {
+					for f := range keySpellings(c, st.Val, fn, depth+1) {
+						out[f] = true
+					}
+				}
+			})
+		}
+	}
+	return out
 }
